@@ -72,16 +72,22 @@ POOL = [
     {"text": "1430", "ts": "2019-11-05T10:17:00", "kw": {}},
     # a repeated hashtag next to different ones (a set-based de-duplication would order labels by string hash)
     {"text": "#bb call #aa tomorrow 5pm #bb #cc #dd", "ts": TS1, "kw": {}},
+    # weekday + day of month (rrule search), twice with different values; a range that fires the rule the shipped vocabulary does not know
+    {"text": "sunday 31st 10:00", "ts": TS1, "kw": {}},
+    {"text": "friday 13th", "ts": TS1, "kw": {}},
+    {"text": "12.12.2022 to 14.12.2022 for 2 days", "ts": TS1, "kw": {}},
+    {"text": "12.12.2022 to 14.12.2022 for 2 days", "ts": TS1, "kw": {"scorer": "nb"}},
+    {"text": "9-5:30", "ts": TS1, "kw": {}},
 ]
 TS_COMPONENT = [23, 24, 25]
 SHIFT_PAIRS = [(13, 14), (15, 16), (17, 18), (19, 20), (21, 22)]
 FAIL = 7
-CALLABLE = list(range(13)) + [13, 14, 23, 24, 25]  # history alphabet (the offset-shift pairs beyond #14 are exercised by the stream merges)
+CALLABLE = list(range(13)) + [13, 14, 23, 24, 25, 27, 28, 29, 30, 31]  # history alphabet (the offset-shift pairs beyond #14 are exercised by the stream merges)
 OPENABLE = [0, 3, 5, 9, 10, 13]
 MERGE_POOL = [0, 1, 3, 4, 5, 8, 9, 10, 11, 12]
 SCHED_PAIRS_QUICK = [(9, 6, "one", "one"), (9, 9, "gen", "one")]
 SCHED_PAIRS_THOROUGH = SCHED_PAIRS_QUICK + [(9, 0, "one", "gen"), (9, 4, "one", "gen"), (0, 3, "one", "gen"), (4, 4, "gen", "gen"), (8, 0, "gen", "one")]
-WSCAN_PAIRS = [(9, 9, "one", "one"), (9, 0, "one", "gen"), (0, 13, "gen", "one")]
+WSCAN_PAIRS = [(9, 9, "one", "one"), (9, 0, "one", "gen"), (0, 13, "gen", "one"), (27, 28, "one", "one"), (27, 27, "one", "one")]
 LINE_PAIRS_THOROUGH = [(9, 6, "one", "one"), (9, 4, "one", "gen")]
 HASH_SEEDS = [0, 1, 2, 4294967295]
 
@@ -258,7 +264,7 @@ def plan(tier, seed):
     depth = 3 if tier == "quick" else 4
     if tier == "quick":
         # depth <= 2 over the full alphabet, depth 3 over a reduced one (every kind of collision still present)
-        hist = list(dict.fromkeys(_histories(2) + _histories(3, call_alpha=[0, 1, 3, 5, 6, 10, 11, 23, 24], open_alpha=[0, 3, 9, 10])))
+        hist = list(dict.fromkeys(_histories(2) + _histories(3, call_alpha=[0, 1, 3, 5, 6, 10, 11, 23, 24, 2, 31], open_alpha=[0, 3, 9, 10])))
     else:
         hist = _histories(depth)
     lens = [len(g) if isinstance(g, list) and (not g or g[0] != "exc") else 0 for g in REF["gen"]]
